@@ -93,7 +93,19 @@ def guarded_asserts(run, model):
         for f in model.fns(rel):
             if f.body is None or not f.body["stmts"]:
                 continue
-            for st in f.body["stmts"][:2]:
+            # the precondition is asserted before the parser is touched: the leading statements up to the first one that calls a
+            # parser method other than inside the assert itself (plain lets without a `p.` call are skipped)
+            lead = []
+            for st in f.body["stmts"]:
+                lead.append(st)
+                e0 = st.get("expr") if st["k"] == "ExprStmt" else None
+                if e0 is not None and e0["k"] == "Macro" and e0["name"] == "assert":
+                    break
+                if st["k"] == "Local" and not any(c["k"] == "MethodCall" and S.is_path(c["recv"], "p") for c in S.walk(st)):
+                    continue
+                if len(lead) >= 2:
+                    break
+            for st in lead:
                 e = st.get("expr") if st["k"] == "ExprStmt" else None
                 if e and e["k"] == "Macro" and e["name"] == "assert":
                     t = S.norm_ws(e.get("tokens", ""))
@@ -312,6 +324,75 @@ def r20_3(run, model):
     run.floor("expressions with both a hover type and an elaboration", n, 3)
 
 
+WHOLE_LEDGER = {
+    ("colon_colon_completions", "prefix"): "the member prefix the user has typed so far: partial match intended",
+    ("filter_dot_items", "prefix"): "the member prefix the user has typed so far: partial match intended",
+}
+
+
+def r20_6(run, model):
+    run.rule("R20.6", "membership of a qualified name in a namespace is decided on whole path segments: every starts_with / ends_with / "
+                      "strip_prefix / strip_suffix in the compiler whose argument is not a literal gets an argument built with the `::` "
+                      "separator (format!(\"{}::\", ns), format!(\"::{}\", ..)), a named constant, or a ledgered user-typed prefix")
+    n = 0
+    for f in model.fns():
+        if f.body is None or not f.file.startswith("crates/compiler/src/") or "/tests/" in f.file:
+            continue
+        lets = {}
+        for l in S.find(f.body, "Local"):
+            if l["pat"]["k"] == "PIdent" and l.get("init") is not None:
+                lets[l["pat"]["name"]] = l["init"]
+        params = {p["pat"].get("name"): i for i, p in enumerate([q for q in f.params() if not q["self"]])}
+        for c in S.walk(f.body):
+            if c["k"] != "MethodCall" or c["method"] not in ("starts_with", "ends_with", "strip_prefix", "strip_suffix") or not c["args"]:
+                continue
+            a = c["args"][0]
+            while a["k"] in ("Ref", "Reference", "Unary") and a.get("expr") is not None:
+                a = a["expr"]
+            if a["k"] == "Lit" or a["k"] in ("Array", "Closure"):
+                continue
+            n += 1
+            at = S.norm_ws(run.facts.text(f.file, a["sp"]))
+
+            def sep_built(e, depth=0):
+                if e["k"] == "Macro" and e["name"] == "format":
+                    return "::" in e.get("tokens", "")
+                if e["k"] == "Path" and len(e["segs"]) == 1 and e["segs"][0].isupper():
+                    return True  # named constant
+                if e["k"] == "Path" and len(e["segs"]) == 1 and e["segs"][0] in lets and depth < 3:
+                    return sep_built(lets[e["segs"][0]], depth + 1)
+                return False
+            ok = sep_built(a)
+            why = "built with the `::` separator / a constant" if ok else "not built with a separator"
+            if not ok and a["k"] == "Path" and len(a["segs"]) == 1 and a["segs"][0] in params:
+                # a parameter: every caller in the file must pass a separator-built argument
+                i = params[a["segs"][0]]
+                callers = []
+                for g in model.fns(f.file):
+                    if g.body is None or g is f:
+                        continue
+                    glets = {}
+                    for l in S.find(g.body, "Local"):
+                        if l["pat"]["k"] == "PIdent" and l.get("init") is not None:
+                            glets[l["pat"]["name"]] = l["init"]
+                    for cc in S.calls(g.body, f.name):
+                        if cc["k"] == "Call" and len(cc["args"]) > i:
+                            x = cc["args"][i]
+                            while x["k"] in ("Ref", "Reference", "Unary") and x.get("expr") is not None:
+                                x = x["expr"]
+                            good = (x["k"] == "Macro" and x["name"] == "format" and "::" in x.get("tokens", "")) or \
+                                   (x["k"] == "Path" and len(x["segs"]) == 1 and x["segs"][0] in glets and glets[x["segs"][0]]["k"] == "Macro"
+                                    and glets[x["segs"][0]]["name"] == "format" and "::" in glets[x["segs"][0]].get("tokens", ""))
+                            callers.append(good)
+                ok = bool(callers) and all(callers)
+                why = f"parameter; {sum(callers)}/{len(callers)} callers pass a separator-built argument"
+            led = WHOLE_LEDGER.get((f.name, at))
+            run.ob("R20.6", f"{f.name}|{c['method']}({at}) compares whole segments", ok or led is not None, site(f.file, c["sp"]),
+                   why + (f"; ledger: {led}" if led and not ok else ""),
+                   witness="import Geo plus struct GeoPoint in Main: `Geo::` offers `Point` (and `metric` from trait Geometric) - items that do not exist in Geo")
+    run.floor("prefix/suffix tests with a computed argument", n, 4)
+
+
 def r20_4(run, model):
     run.rule("R20.4", "invariants the site ledger rests on are checked, not only stated: (a) lower_path yields Some only for a non-empty "
                       "segment list (the `.expect(\"paths must contain at least one segment\")` sites rely on it), and every other producer "
@@ -361,6 +442,11 @@ def run(run, model):
     mir = Mir(run.facts)
     g = Graph(mir)
     run.try_rule(r20_4, model)
+    run.try_rule(r20_6, model)
+    from rules import c07
+    run.rule("R20.7", "the occurs check looks into every component of every type former (shared with C07 R07.2, restricted to typer::unify): a "
+                      "missed component lets a cyclic type through and the next query overflows the stack")
+    run.try_rule(c07.r07_2, model, None, "C20")
     run.try_rule(r20_1, model, mir, g)
     run.try_rule(r20_2, model)
     run.try_rule(r20_3, model)
